@@ -6,7 +6,8 @@
     ambiguity, method sets of T and *T, implements, assertion / switch on the dynamic type).
     All theorems quantify over arbitrary universes of declared types: any number of types, any
     embedding depth, embedded pointers and cycles through them included. *)
-From Verif Require Import Lib.Str Disp.Model Disp.Proofs.
+From Verif Require Import Lib.Str Disp.Model Disp.Proofs Disp.Host Disp.HostProofs.
+From Verif Require Import gen.MapTypes_gen.
 From Coq Require Import NArith.
 
 (** The property at full strength (false of the faithful model today, see the [_refuted] theorems):
@@ -148,3 +149,85 @@ Theorem C05_switch_refuted :
   /\ y_switch None [TNil] = 1 /\ g_switch U_depth None [TNil] = 0.
 Proof. exact switch_refuted. Qed.
 Print Assumptions C05_switch_refuted.
+
+(* ------------------------------------------------------------------------------------------ *)
+(** Interpreted values handed to compiled code that probes for interfaces dynamically
+    (Disp/Host.v).  [maptypes_gen] is regenerated from stdlib/maptypes.go and
+    stdlib/wrapper-composed.go on every run. *)
+
+(** Full statement of this part: for every consumer and every method set, the compiled function
+    serves the interface it serves in compiled Go. *)
+Definition C05_host_statement : Prop :=
+  forall c impl, subset (c_static c) impl = true -> y_result maptypes_gen c impl = g_result c impl.
+
+(** For every table, consumer and method set: if the wrapper yaegi selects carries the methods of
+    the interface compiled Go would serve, the same interface is served. *)
+Theorem C05_host_partial :
+  forall tbl c impl p,
+    subset (y_visible tbl c impl) impl = true ->
+    first_probe impl (c_probes c) = Some p -> subset (snd p) (y_visible tbl c impl) = true ->
+    y_result tbl c impl = g_result c impl.
+Proof. exact host_agree. Qed.
+Print Assumptions C05_host_partial.
+
+(** Finite, by computation on the regenerated lists: every print function of fmt and log with
+    interface{} operands and json.Marshal are registered, and for each of them (three classes of
+    verbs), for io.Copy's source and destination, every type implementing only registered
+    interfaces (every subset of their methods) is served as in compiled Go.  In particular a type
+    with both Format and String is served through Format. *)
+Theorem C05_maptypes_registered_ok : registered_ok maptypes_gen = true.
+Proof. exact registered_ok_now. Qed.
+Print Assumptions C05_maptypes_registered_ok.
+
+(** The order of the lists is the precedence of the compiled packages: Formatter before Stringer
+    for every print function, json.Marshaler before encoding.TextMarshaler. *)
+Theorem C05_maptypes_order_ok : order_ok maptypes_gen = true.
+Proof. exact order_ok_now. Qed.
+Print Assumptions C05_maptypes_order_ok.
+
+Theorem C05_host_side_condition_inhabited :
+  y_result maptypes_gen (consumer_of (s "fmt.Sprintf") (s "str")) [s "Format"; s "String"] = s "Formatter"
+  /\ g_result (consumer_of (s "fmt.Sprintf") (s "str")) [s "Format"; s "String"] = s "Formatter"
+  /\ y_result maptypes_gen copy_src [s "Read"; s "WriteTo"] = s "WriterTo"
+  /\ y_result maptypes_gen json_consumer [s "MarshalJSON"; s "MarshalText"] = s "Marshaler".
+Proof. exact host_side_inhabited. Qed.
+Print Assumptions C05_host_side_condition_inhabited.
+
+(** error is not in the lists: a value with Error and String is printed through String, one with Error only is dumped. *)
+Theorem C05_host_fmt_error_refuted :
+  y_result maptypes_gen (consumer_of (s "fmt.Println") (s "str")) [s "Error"; s "String"] = s "Stringer"
+  /\ g_result (consumer_of (s "fmt.Println") (s "str")) [s "Error"; s "String"] = s "error"
+  /\ y_result maptypes_gen (consumer_of (s "fmt.Sprint") (s "str")) [s "Error"] = s "none"
+  /\ g_result (consumer_of (s "fmt.Sprint") (s "str")) [s "Error"] = s "error".
+Proof. exact fmt_error_refuted. Qed.
+Print Assumptions C05_host_fmt_error_refuted.
+
+(** GoStringer is not in the lists: %#v never calls an interpreted GoString. *)
+Theorem C05_host_gostringer_refuted :
+  y_result maptypes_gen (consumer_of (s "fmt.Sprintf") (s "sharp")) [s "GoString"; s "String"] = s "none"
+  /\ g_result (consumer_of (s "fmt.Sprintf") (s "sharp")) [s "GoString"; s "String"] = s "GoStringer".
+Proof. exact fmt_gostringer_refuted. Qed.
+Print Assumptions C05_host_gostringer_refuted.
+
+(** io.WriteString looks for StringWriter; the io.Writer wrapper has Write only. *)
+Theorem C05_host_stringwriter_refuted :
+  y_result maptypes_gen write_string [s "Write"; s "WriteString"] = s "Writer"
+  /\ g_result write_string [s "Write"; s "WriteString"] = s "StringWriter".
+Proof. exact string_writer_refuted. Qed.
+Print Assumptions C05_host_stringwriter_refuted.
+
+(** log.Print* are not registered: operands are handed over without any wrapper. *)
+Theorem C05_host_log_print_refuted :
+  y_result maptypes_gen (consumer_of (s "log.Print") (s "str")) [s "String"] = s "none"
+  /\ g_result (consumer_of (s "log.Print") (s "str")) [s "String"] = s "Stringer".
+Proof. exact log_print_refuted. Qed.
+Print Assumptions C05_host_log_print_refuted.
+
+(** The error wrapper has Error only: errors.Is / errors.Unwrap never call an interpreted Is / Unwrap. *)
+Theorem C05_host_errors_refuted :
+  y_result maptypes_gen (consumer_of (s "errors.Is") (s "")) [s "Error"; s "Is"] = s "error"
+  /\ g_result (consumer_of (s "errors.Is") (s "")) [s "Error"; s "Is"] = s "Is"
+  /\ y_result maptypes_gen (consumer_of (s "errors.Unwrap") (s "")) [s "Error"; s "Unwrap"] = s "error"
+  /\ g_result (consumer_of (s "errors.Unwrap") (s "")) [s "Error"; s "Unwrap"] = s "Unwrap".
+Proof. exact errors_is_refuted. Qed.
+Print Assumptions C05_host_errors_refuted.
